@@ -21,7 +21,11 @@ KIND = {"safe": ("Rust", False), "unsafe": ("Rust", True), "extern-C": ("C", Tru
 def run(ck, models, tier, ws):
     ck.decided, ck.not_decided = DECIDED, NOT_DECIDED
     ck.trusted += ["rustc macro expansion, type checking and MIR", "std models"]
-    tm = models[0]
+    for tm in models:
+        run_one(ck, tm, tier, ws)
+
+
+def run_one(ck, tm, tier, ws):
     hm = mac.get(ws, tm.facts, tier)
     arms = hmod_arms(hm)
     ck.floor("R8.1", "fake-arms-enumerated", len(arms), 52)
@@ -91,6 +95,12 @@ def run(ck, models, tier, ws):
         vs = hm.variants(fake)
         admitted = [v for v in vs if v.status == "returned"]
         ck.ob("R8.3", "%s/has-admitted-path" % key, tm.target, bool(admitted), "%d returning path(s)" % len(admitted))
+        # `times` means the same in every arm that has it: a budget edge on which the call diverges before any user piece
+        nbud = sum(1 for v in vs if v.status == "diverged" and any("fetch_add" in fmt(d_[0], 6) for d_ in v.decisions[-1:])
+                   and not markers(v, ASSIGN + RET))
+        ck.ob("R8.3", "%s/%s" % (key, "budget-edge" if o["times"] else "no-budget-edge"), tm.target, (nbud >= 1) == bool(o["times"]),
+              "arm %s `times`: %d path(s) diverging on the result of the counter's fetch_add before any user piece" % (
+                  "with" if o["times"] else "without", nbud))
         for v in vs:
             ms = markers(v)
             conds = markers(v, COND)
